@@ -897,6 +897,28 @@ fn perturbations(cfg: &Config, w: &World, cdi: &Cdi, cred_data: &CredentialData,
         c.proofs.id_proofs.commitments.cmm_id_cred_sec_sharing_coeff.push(last);
         out.push(Attempt::cdi("values.threshold+1+coeff", format!("threshold {t} -> {} and a sharing coefficient appended", t + 1), c));
     }
+    {
+        // the number of sharing coefficients changed alone (the threshold in the values is what the
+        // identity provider signed): a neutral-element commitment appended leaves every sigma-protocol
+        // statement and the share commitments unchanged, so only the count check can reject it
+        let mut c = cdi.clone();
+        let neutral = {
+            let mut x = c.proofs.id_proofs.commitments.cmm_id_cred_sec_sharing_coeff[0];
+            x.0 = x.0.minus_point(&x.0);
+            x
+        };
+        c.proofs.id_proofs.commitments.cmm_id_cred_sec_sharing_coeff.push(neutral);
+        out.push(Attempt::cdi("proofs.sharing_coeff.count", "a neutral-element sharing coefficient appended, threshold unchanged".to_string(), c));
+        let mut c = cdi.clone();
+        let last = *c.proofs.id_proofs.commitments.cmm_id_cred_sec_sharing_coeff.last().unwrap();
+        c.proofs.id_proofs.commitments.cmm_id_cred_sec_sharing_coeff.push(last);
+        out.push(Attempt::cdi("proofs.sharing_coeff.count", "last sharing coefficient repeated, threshold unchanged".to_string(), c));
+        if t >= 2 {
+            let mut c = cdi.clone();
+            c.proofs.id_proofs.commitments.cmm_id_cred_sec_sharing_coeff.pop();
+            out.push(Attempt::cdi("proofs.sharing_coeff.count", "last sharing coefficient dropped, threshold unchanged".to_string(), c));
+        }
+    }
     for id in chosen.iter() {
         let mut c = cdi.clone();
         let e = c.values.ar_data.get_mut(id).unwrap();
